@@ -58,7 +58,9 @@ pub open spec fn same_unless_planned(new: Map<PathV, FileS>, old: Map<PathV, Fil
     // pull: only the planned paths are unlinked, nothing else changes, no remote command
     dir is Pull ==> final(rl).cmds == old(rl).cmds
         && same_unless_planned(final(w).files, old(w).files, pv(local_root), dels@, dels@.len() as int)
-        && (forall|k: int| old(w).log.len() <= k < final(w).log.len() ==> planned_unlink(#[trigger] final(w).log[k], pv(local_root), dels@, dels@.len() as int)),
+        && (forall|k: int| old(w).log.len() <= k < final(w).log.len() ==> planned_unlink(#[trigger] final(w).log[k], pv(local_root), dels@, dels@.len() as int))
+        // ... and ALL of them: without an I/O fault every planned path is gone afterwards
+        && (io_ok() ==> forall|i: int| 0 <= i < dels@.len() ==> !final(w).files.contains_key(joinv(pv(local_root), pbv(#[trigger] &dels@[i])))),
     // push: ONE remote command, which removes exactly <remote_root>/<rel> for the planned rel - nothing else, nothing relative
     dir is Push ==> final(w).files == old(w).files && final(w).log == old(w).log
         && final(rl).cmds == old(rl).cmds.push(RemoteCmd::Rm { host: host@, paths: entries(remote_root@, dels@) }),
@@ -79,6 +81,7 @@ pub open spec fn same_unless_planned(new: Map<PathV, FileS>, old: Map<PathV, Fil
         w0.log.len() <= w.log.len(), forall|k: int| 0 <= k < w0.log.len() ==> #[trigger] w.log[k] == w0.log[k],
         same_unless_planned(w.files, w0.files, pv(local_root), dels@, it.index() as int),
         forall|k: int| w0.log.len() <= k < w.log.len() ==> planned_unlink(#[trigger] w.log[k], pv(local_root), dels@, it.index() as int),
+        io_ok() ==> forall|i: int| 0 <= i < it.index() ==> !w.files.contains_key(joinv(pv(local_root), pbv(#[trigger] &dels@[i]))),
 //@at loop ~/remove_file/ entry
         broadcast use asp_path, asp_pathbuf, asp_pathbuf_val;
         let ghost wl = *w;
@@ -91,6 +94,11 @@ pub open spec fn same_unless_planned(new: Map<PathV, FileS>, old: Map<PathV, Fil
                 assert(q != joinv(pv(local_root), pbv(&dels@[i0])));
                 assert(!planned(pv(local_root), dels@, i0, q)) by { if planned(pv(local_root), dels@, i0, q) { let i = choose|i: int| 0 <= i < i0 && q == joinv(pv(local_root), pbv(#[trigger] &dels@[i])); assert(0 <= i < i0 + 1); } }
                 assert(wl.files.dom().contains(q) == w0.files.dom().contains(q));
+            }
+            if io_ok() {
+                assert forall|i: int| 0 <= i < i0 + 1 implies !w.files.contains_key(joinv(pv(local_root), pbv(#[trigger] &dels@[i]))) by {
+                    if i < i0 { assert(!wl.files.contains_key(joinv(pv(local_root), pbv(&dels@[i])))); }
+                }
             }
             assert forall|k: int| w0.log.len() <= k < w.log.len() implies planned_unlink(#[trigger] w.log[k], pv(local_root), dels@, i0 + 1) by {
                 if k < wl.log.len() { assert(planned_unlink(wl.log[k], pv(local_root), dels@, i0)); let i = choose|i: int| 0 <= i < i0 && wl.log[k] == Eff::Unlink(joinv(pv(local_root), pbv(#[trigger] &dels@[i]))); assert(w.log[k] == wl.log[k]); assert(0 <= i < i0 + 1); }
